@@ -686,12 +686,16 @@ func (a *RangeArg) Parse() error {
 			switch rbs[0] {
 			case "min":
 				r.Min = true
+			case "max":
+				r.StartMax = true
 			default:
 				r.Start = rbs[0]
 			}
 			switch rbs[1] {
 			case "max":
 				r.Max = true
+			case "min":
+				r.EndMin = true
 			default:
 				r.End = rbs[1]
 			}
@@ -754,6 +758,8 @@ func (a *LengthArg) Parse() error {
 			switch bs[0] {
 			case "min":
 				l.Min = true
+			case "max":
+				l.StartMax = true
 			default:
 				i, e = strconv.ParseUint(bs[0], 10, 64)
 				if e != nil {
@@ -764,6 +770,8 @@ func (a *LengthArg) Parse() error {
 			switch bs[1] {
 			case "max":
 				l.Max = true
+			case "min":
+				l.EndMin = true
 			default:
 				i, e = strconv.ParseUint(bs[1], 10, 64)
 				if e != nil {
